@@ -96,6 +96,10 @@ def check(case):
             if g1 != out[e]:
                 raise Bad('options-object-sequence', f'{e} exported with an options object that exported {order + order[::-1]} in turn differs from a fresh export ({tag})\n--- fresh\n{out[e]}--- sequence\n{g1}')
         evals += 2 * len(order)
+        # ... and from kernpy.dump onto a file that already holds other (same-size, then longer) content
+        e_ = encs[(len(text) + evals) % len(encs)]
+        if K.via_dump_file(kdoc, expect=out[e_], encoding=K.ENCODINGS[e_], **kw) != out[e_]:
+            raise Bad('dump-file', f'{e_} ({tag}): kernpy.dump writes a different text than dumps returns')
         # (1) output-vs-output
         for plain, ext in (('kern', 'ekern'), ('bkern', 'bekern'), ('akern', 'aekern')):
             if plain not in grids:
